@@ -340,7 +340,13 @@ func RunC17(r *core.Run) {
 				if rr.Intn(3) > 0 {
 					brVal = gen.RandCase(rr, "z9hG4bK") + brVal
 				}
-				via = append(via, (";" + []string{"", " "}[rr.Intn(2)] + gen.RandCase(rr, "branch") + []string{"=", " = "}[rr.Intn(2)] + brVal)...)
+				if rr.Intn(8) == 0 {
+					// a branch parameter without a value: found, but nothing to classify
+					brVal = ""
+					via = append(via, (";" + gen.RandCase(rr, "branch") + []string{"", "="}[rr.Intn(2)])...)
+				} else {
+					via = append(via, (";" + []string{"", " "}[rr.Intn(2)] + gen.RandCase(rr, "branch") + []string{"=", " = "}[rr.Intn(2)] + brVal)...)
+				}
 			} else if i < np {
 				via = append(via, (";" + []string{"rport", "received=1.2.3.4", "ttl=5", "x=\"q;branch=no\"", "maddr=h", "branchx=1", "bran=2"}[rr.Intn(7)])...)
 			}
@@ -371,6 +377,11 @@ func RunC17(r *core.Run) {
 			var s2 sipsp.StrSigId
 			var l2 int
 			core.Guard(func() { s2, l2 = sipsp.GetViaBrSig([]byte("y;branch=" + brVal)) })
+			if brVal == "" && (sig != 0 || sl != 0) {
+				w.Fail("via-branch-empty", func() *core.Violation {
+					return core.V(fmt.Sprintf("GetViaBrSig(%q) = (%#x,%d) but the branch parameter has no value", via, sig, sl), via, nil)
+				})
+			}
 			if sl != wl || sig != s2 || l2 != wl {
 				w.Fail("via-branch", func() *core.Violation {
 					return core.V(fmt.Sprintf("GetViaBrSig(%q) = (%#x,%d); the branch value is %q: expected length %d and the same class bits as the bare value (%#x,%d)", via, sig, sl, brVal, wl, s2, l2), via, nil)
